@@ -1,7 +1,9 @@
 """Zone theory: the assumed contract of tzinfo implementations (pytz, zoneinfo, tzlocal).
 
-  OFF(z, i)  : offset (microseconds) that zone z applies at UTC instant i   -- arbitrary function
-  LOC(z, w)  : the instant whose wall clock in z is w                        -- arbitrary function
+  OFF(z, i)  : offset (seconds) that zone z applies at UTC second i         -- arbitrary function
+  LOC(z, w)  : the UTC second whose wall clock (in seconds) in z is w       -- arbitrary function
+  (second granularity: offsets are whole seconds and change at whole seconds, so the sub-second
+  part of an instant passes through unchanged)
   axiom (instantiated at every use): LOC(z, w) + OFF(z, LOC(z, w)) == w   [w unambiguous in z: the
   property's own side condition]; and for an instant i: LOC(z, i + OFF(z, i)) == i.
 
@@ -143,30 +145,38 @@ def gives_offset(tz):
     return True
 
 
+S_US = 1000000
+
+
 def _off(zid, inst):
-    return mk_int(OFF(z3.IntVal(zid), toint_z3(inst)))
+    return mk_int(OFF(z3.IntVal(zid), toint_z3(inst) / S_US) * S_US)
 
 
 def _loc(zid, wall):
+    """LOC at second granularity: offsets are whole seconds and change at whole seconds (true of
+    the tz database and of every fixed-offset zone), so the sub-second part passes through."""
     p = cur()
     w = toint_z3(wall)
-    i = LOC(z3.IntVal(zid), w)
+    ws, wr = w / S_US, w % S_US
+    z = z3.IntVal(zid)
+    i = LOC(z, ws)
     # axiom instance: unambiguous wall clock
-    p._add(i + OFF(z3.IntVal(zid), i) == w)
-    p._add(OFF(z3.IntVal(zid), i) > -DAY_US)
-    p._add(OFF(z3.IntVal(zid), i) < DAY_US)
-    return mk_int(i)
+    p._add(i + OFF(z, i) == ws)
+    p._add(OFF(z, i) > -86400)
+    p._add(OFF(z, i) < 86400)
+    return mk_int(i * S_US + wr)
 
 
 def _off_at(zid, inst):
     p = cur()
-    i = toint_z3(inst)
-    o = OFF(z3.IntVal(zid), i)
-    p._add(o > -DAY_US)
-    p._add(o < DAY_US)
+    z = z3.IntVal(zid)
+    i = toint_z3(inst) / S_US
+    o = OFF(z, i)
+    p._add(o > -86400)
+    p._add(o < 86400)
     # round trip: the wall clock of an instant localizes back to it (unambiguous)
-    p._add(LOC(z3.IntVal(zid), i + o) == i)
-    return mk_int(o)
+    p._add(LOC(z, i + o) == i)
+    return mk_int(o * S_US)
 
 
 def utcoffset_of(tz, dt):
